@@ -144,13 +144,22 @@ let edits_line line = match al (sx_parse line) with
     let (((d', ap), sk), out) = apply_edits (to_doc d) (to_str au) (to_str ts) eds orc in
     Printf.sprintf "%d %d %d|%s" (int_of_nat ap) (int_of_nat sk) (int_of_nat out) (p_doc d')
   | _ -> "ERR"
+(* (((name ctype) ...) ((rtype target) ...)) -> "name:ctype;...|rtype:target;..." *)
+let package_line line = match al (sx_parse line) with
+  | [L ps; L rs] ->
+    let p = { parts = List.map (fun x -> match al x with [n; A c] -> { pt_name = to_str n; pt_ctype = n_of_int c } | _ -> failwith "part") ps;
+              rels = List.map (fun x -> match al x with [A t; n] -> { r_type = n_of_int t; r_target = to_str n } | _ -> failwith "rel") rs } in
+    let q = ensure_comment_parts p in
+    String.concat ";" (List.map (fun x -> show x.pt_name ^ ":" ^ string_of_int (int_of_n x.pt_ctype)) q.parts) ^ "|" ^
+    String.concat ";" (List.map (fun x -> string_of_int (int_of_n x.r_type) ^ ":" ^ show x.r_target) q.rels)
+  | _ -> "ERR"
 let extract_line line = match al (sx_parse line) with
   | [A c; d] -> show (extract_u (c <> 0) (to_doc d))
   | _ -> "ERR"
 
 let () =
   let f = match Sys.argv.(1) with
-    | "trim" -> trimu_line | "trim_ascii" -> trim_line | "tokens" -> tokens_line | "spans" -> spans_line | "nspans" -> nspans_line | "normalize" -> norm_line | "review" -> review_line | "edits" -> edits_line | "acceptall" -> acceptall_line | "extract" -> extract_line | "diff" -> diff_line | "markup" -> markup_line
+    | "trim" -> trimu_line | "trim_ascii" -> trim_line | "tokens" -> tokens_line | "spans" -> spans_line | "nspans" -> nspans_line | "normalize" -> norm_line | "review" -> review_line | "edits" -> edits_line | "package" -> package_line | "acceptall" -> acceptall_line | "extract" -> extract_line | "diff" -> diff_line | "markup" -> markup_line
     | m -> failwith ("mode " ^ m) in
   try while true do
     let line = input_line stdin in
